@@ -96,6 +96,9 @@ async def explore(tier, seed):
         pool.append(("invalid-multinode", "query Q($u: Int, $u: Int) { __typename }", "Q", None))
         pool.append(("invalid-multinode", "{ __typename }\n{ a: __typename }", None, None))
         pool.append(("ctx", "{ ctxProbe again: ctxProbe }", None, None)); pool.append(("ctx", "{ __typename ctxProbe }", None, None))
+        # the SAME operation text, another definition of the root-level fragment it spreads
+        for body_ in ("x1: __typename", "x2: __typename y: __typename", "__typename"):
+            pool.append(("root-frag-redefined", f"query Qr {{ ...Fr }}\nfragment Fr on Query {{ {body_} }}", "Qr", None))
         pool.append(("junk", "", None, None)); pool.append(("junk", "{", None, None))
         # introspection selections under different response keys / positions (refused as a field error when the schema forbids it)
         for q_ in ("{ a: __schema { queryType { name } } }", '{ __typename b: __type(name: "T") { name } }', '{ c: __type(name: "Query") { name } d: __schema { queryType { name } } }'):
@@ -134,6 +137,7 @@ async def explore(tier, seed):
                 if cname.startswith("lru-"): kw["query_cache_decorator"] = lru_cache(maxsize=int(cname[4:]))
                 kw.update(ckw)
                 b = await er.build_engine(model_(), renv, engine_kwargs=kw)
+                b.share_values = True        # one data object per resolver for the whole history (the reference engines are per request)
                 stats["histories"] += 1
                 for i, (kind, q, opn, variables) in enumerate(hist):
                     try:
@@ -153,6 +157,16 @@ async def explore(tier, seed):
                             shape = []
                         if shape:
                             stats["problems"].append({"what": shape[:3], "cache": cname, "position": i, "query": q, "operation_name": opn, "variables": variables, "response": json.loads(json.dumps(r, default=str))})
+                            break
+                    # the answer speaks about THIS document: its root keys are the root fields this document selects (a memo
+                    # shared by the whole process would fool every comparison between engines of this process)
+                    if kind in ("valid", "lookalike", "root-frag-redefined", "frag-retarget", "ctx") and isinstance(q, str) and not got.startswith("raised") and isinstance(r.get("data"), dict):
+                        try:
+                            keyp = [x for x in orc.check_conforms(b.model, er.parse_doc(q), opn, variables, enc(r.get("data"))) if x.startswith("keys ")]
+                        except Exception:
+                            keyp = []
+                        if keyp:
+                            stats["problems"].append({"what": keyp[:2], "cache": cname, "position": i, "query": q, "operation_name": opn, "variables": variables, "response": json.loads(json.dumps(r, default=str))})
                             break
                     repeated = any(h[1] == q for h in hist[:i])
                     if repeated: stats["nontrivial"].add(hashlib.sha256(repr((si, hi, cname, i)).encode()).hexdigest()[:16])
